@@ -47,8 +47,11 @@ Print Assumptions declare_var_through_block_rejected.
    also a parameter or a declaration of the body (the shapes refuted below) - a default value MAY mention a name
    that the function body declares (it is frozen by MarkFuncArgs and resolved outside the function; since /repo
    6a9c7af the body's declaration no longer adopts it); For loops (loop head with let / const / var declarations and arbitrary initialisers, one Scope
-   with MarkForStmt) whose head mentions no name that the body declares lexically; Catch with plain parameters
-   (and the mark after the parameter, /repo 8db4a8d) that the catch block does not redeclare by var/function; Class bodies without a class-expression name
+   with MarkForStmt) whose body declares lexically no name that the head DECLARES (the head may mention names the
+   body declares: frozen by MarkForStmt, /repo 6a9c7af); Catch whose parameter is a name or a pattern with default
+   values (references, functions / arrows / classes; a default value may mention a later name of the pattern and any
+   name the block declares: mark after the parameter, /repo 8db4a8d) and is not redeclared by var/function in the
+   catch block; Class bodies without a class-expression name
    (methods, field values, computed keys, static blocks = function scopes without parameters); Decl var / function / let-const-class /
    parameter / catch parameter; Ref}: arbitrary nesting, shadowing at every level, use before declaration,
    hoisting of var/function through nested and sibling blocks, loops and catch clauses, closures that use names
@@ -68,15 +71,18 @@ Print Assumptions declare_var_through_block_rejected.
        later parameter, an expression name redeclared inside the function, a loop body that declares lexically a
        name the loop head DECLARES, var redeclaring a catch parameter;
      - shapes on which model and ECMAScript agree on all sampled programs but which the proof does not reach:
-       a loop head that merely MENTIONS a name the body declares lexically (agreeing since /repo 6a9c7af),
-       destructuring defaults in catch heads (since 8db4a8d) and class-expression names (since faa3812; the label
-       machine of the proof has no step for the merge of the pending uses into the name), x => ... and the arrow
-       cover grammar (UndeclareScope).
+       class-expression names (agreeing since faa3812; the label machine of the proof has no step for the merge of
+       the pending uses into the name), x => ... and the arrow cover grammar (UndeclareScope).
    These are checked by the correspondence runs and the oracle only (KNOWN_FINDINGS.txt, keys c04-es:... and
-   c04-reject:...); resolution_repaired_witnesses holds the former counterexamples.
+   c04-reject:...); resolution_repaired_witnesses holds the former counterexamples.  That the fragment excludes
+   nothing else is checked on every generated program without redeclaration error (oracle key
+   c04-harness:fragment-not-exact: in [core_x] iff free of the four syntactic shapes above and of class-expression
+   names, x => ... and parenthesised covers; [core_x] itself is compared with the harness's reading on every program
+   of the end-to-end correspondence).
    Example (hypotheses satisfiable, non-trivial partition): Main.example_hyps, Main.example_partition,
    Main.example_d_hyps, Main.example_d_partition (default values), Main.example_c_hyps,
-   Main.example_c_partition (classes), Main.example_x_hyps, Main.example_x_partition (loops, expression names). *)
+   Main.example_c_partition (classes), Main.example_x_hyps, Main.example_x_partition (loops, expression names),
+   Main.example_y_hyps, Main.example_y_partition (uses frozen by the marks of loop heads, catch patterns, parameter lists). *)
 Theorem resolution_correct_partial :
   forall p : prog,
     core_x p = true -> program_ok p = true -> Z.of_nat (occurrences p) < 65536 ->
@@ -165,8 +171,9 @@ Proof. exact w_catch_var_deviates. Qed.
 Print Assumptions resolution_catch_refuted.
 
 (* the counterexamples of three repaired deviations (/repo 6a9c7af, 8db4a8d, faa3812) now resolve as ECMAScript
-   says: "var b; function f(a=b){b; var b}" (inside the fragment of resolution_correct_partial),
-   "var a; try{}catch([b=a]){let a}" and "(class a{m(){a}})" (outside it).  [agrees p]: no redeclaration error,
+   says: "var b; function f(a=b){b; var b}",
+   "var a; try{}catch([b=a]){let a}" (both inside the fragment of resolution_correct_partial) and "(class a{m(){a}})"
+   (outside it).  [agrees p]: no redeclaration error,
    the model resolves p, and its partition by Var is the declarative one. *)
 Theorem resolution_repaired_witnesses : agrees w_default_capture /\ agrees w_catch_head /\ agrees w_classexpr_name.
 Proof. exact (conj w_default_capture_agrees (conj w_catch_head_agrees w_classexpr_name_agrees)). Qed.
